@@ -2,7 +2,9 @@ package values
 
 import (
 	"fmt"
+	"math"
 	"reflect"
+	"strconv"
 	"strings"
 )
 
@@ -12,6 +14,12 @@ import (
 // bindings happen to live in memory. (A pointer that is itself the value has
 // always been treated as what it points to; see ValueOf.)
 func Sprint(value any) string {
+	switch f := value.(type) {
+	case float64:
+		return formatFloat(f, 64)
+	case float32:
+		return formatFloat(float64(f), 32)
+	}
 	rv := reflect.ValueOf(value)
 	if held, ok := value.(reflect.Value); ok {
 		// like fmt, print the value that a reflect.Value holds
@@ -23,6 +31,22 @@ func Sprint(value any) string {
 	var sb strings.Builder
 	sprint(&sb, rv, 0)
 	return sb.String()
+}
+
+// formatFloat prints a number in positional notation. fmt switches to the exponent form
+// from 1e21 on for %v of a float, but already at a million when the number is whole or has
+// few digits (1e+06, 1.234567e+06), which is no way to print a price or a count.
+func formatFloat(f float64, bits int) string {
+	switch a := math.Abs(f); {
+	case math.IsInf(f, 0) || math.IsNaN(f):
+		return strconv.FormatFloat(f, 'g', -1, bits)
+	case f == math.Trunc(f):
+		// a whole number prints without a fractional part, however large it is
+		return strconv.FormatFloat(f, 'f', -1, bits)
+	case a < 1e-5 || a >= 1e21:
+		return strconv.FormatFloat(f, 'g', -1, bits)
+	}
+	return strconv.FormatFloat(f, 'f', -1, bits)
 }
 
 const sprintDepth = 32 // gives up on cyclic data
